@@ -160,7 +160,7 @@ def gen_compu(rng):
         n = rng.choice([1, 2, 3, 4])
         scales = []
         for i in range(n):
-            lo = rng.choice([i * 10, i * 10, i * 5])
+            lo = rng.choice([i * 10, i * 10, i * 5, i * 10 - 3])
             hi = lo + rng.choice([0, 0, 3, 9, 12])
             form = rng.random()
             lol = (lo, rng.choice([1, 1, None, 0]))
@@ -170,7 +170,7 @@ def gen_compu(rng):
             elif form < 0.3:
                 lol = None
             scales.append(dict(lo=lol, hi=hil, const=rng.choice(["on", "off", "err", f"t{i}", f"t{i}"]),
-                               inv=rng.choice([None, None, lo + 1])))
+                               inv=rng.choice([None, None, lo + 1] + ([0, 0] if lo <= 0 <= hi else []))))
         return dict(k=k, scales=scales, pdef=rng.choice([None, None, "dflt"]), idef=rng.choice([None, None, 99]))
     if k == "tabintp":
         n = rng.choice([2, 3, 4])
